@@ -251,17 +251,19 @@ package store
 //@   modifies maps, $rdpos, $screst, $sctok
 //@   ensures [result] {C20,C19,C02} err == nil ==> c != nil && wfConfig(c) && oneLineConfig(c)
 
+//@ pred userNameOf(c) := ite(confHas(c.local, "user", "name"), confGet(c.local, "user", "name"), ite(confHas(c.global, "user", "name"), confGet(c.global, "user", "name"), ""))
+//@ pred userEmailOf(c) := ite(confHas(c.local, "user", "email"), confGet(c.local, "user", "email"), ite(confHas(c.global, "user", "email"), confGet(c.global, "user", "email"), ""))
 //@ func Config.GetUserName
 //@   returns name
 //@   pure
 //@   ensures [one-line] {C02} oneLineConfig(c) ==> !contains(name, "\n")
-//@   ensures [precedence] {C20,C02} name == ite(confHas(c.local, "user", "name"), confGet(c.local, "user", "name"), ite(confHas(c.global, "user", "name"), confGet(c.global, "user", "name"), ""))
+//@   ensures [precedence] {C20,C02} name == userNameOf(c)
 
 //@ func Config.GetEmail
 //@   returns email
 //@   pure
 //@   ensures [one-line] {C02} oneLineConfig(c) ==> !contains(email, "\n")
-//@   ensures [precedence] {C20,C02} email == ite(confHas(c.local, "user", "email"), confGet(c.local, "user", "email"), ite(confHas(c.global, "user", "email"), confGet(c.global, "user", "email"), ""))
+//@   ensures [precedence] {C20,C02} email == userEmailOf(c)
 
 //@ func Config.IsUserSet
 //@   returns ok
